@@ -7,11 +7,8 @@ From BU Require Lemmas.Base32 Lemmas.Base32Ok Lemmas.SS58Ok.
 Import ListNotations.
 Open Scope N_scope.
 
-(* the concrete codecs in the argument order Model/AddrText.v uses *)
-Definition b32_enc_nopad (al : option (list N)) (d : list N) : res (list N) := Codecs.b32_encode_no_padding d al.
-Definition b32_dec (al : option (list N)) (s : list N) : res (list N) := Codecs.b32_decode s al.
-Definition ss58_enc (blake : list N -> list N) (d : list N) (f : N) : res (list N) := Codecs.ss58_encode blake d (Z.of_N f).
-Definition ss58_dec (blake : list N -> list N) (s : list N) : res (N * list N) := Codecs.ss58_decode blake s.
+(* the concrete codecs in the argument order Model/AddrText.v uses: Model/AddrCodecs.v *)
+From BU Require Export Model.AddrCodecs.
 
 Notation custom_ok := Lemmas.Base32.custom_ok.
 Notation eff := Lemmas.Base32.eff.
